@@ -49,6 +49,16 @@ CLAIMED = {
         "technique": "Coq proof over translator-generated model; exact differential; linearised-rows reference oracle",
         "design": "DESIGN.md section 5, C05",
     },
+    "C06": {
+        "text": "Coq theorems (props/C06.v): analysis with covariates = the test applied to Y - theta*(X - xbar) with the "
+                "pooled coefficient theta = cov/var (linearisations for ratio metrics), Mean instance shape lemmas, weighted "
+                "adjusted means = pooled mean, invariance under affine maps of the covariate and under rescaling of covariate "
+                "columns, zero-variance covariate = unadjusted result",
+        "note": "trusted: Coq kernel, stdlib real axioms, translator; floats outside the theorem",
+        "technique": "Coq proof over translator-generated model (uses the C14 concatenation theorem); exact differential; "
+                     "regression-from-rows reference oracle and metamorphic runs",
+        "design": "DESIGN.md section 5, C06",
+    },
 }
 REASONS = {}
 
